@@ -312,11 +312,13 @@ Definition append_raw (c : chunk) (t : Z) (h0 : hist) : chunk :=
           (copy_into (a_pb c) (h_pb h)) (copy_into (a_nb c) (h_nb h))
   end.
 
-(* what the iterator returns for one stored sample (AtHistogram / AtFloatHistogram);
-   the hint is not modelled (HUnknown) *)
+(* what the iterator returns for one stored sample (AtHistogram / AtFloatHistogram).  Of the
+   hint only "GaugeType or not" is modelled (counterResetHint: GaugeType for every sample of a
+   gauge chunk; Unknown / NotCounterReset otherwise, which the appenders treat alike); a stale
+   sample is returned as the bare marker {Sum: StaleNaN}, whose hint is Unknown *)
 Definition read_samp (c : chunk) (s : samp) : Z * hist :=
   if is_stale (sm_sum s) then (sm_t s, empty_hist (sm_sum s))
-  else (sm_t s, mkH HUnknown (c_schema c) (c_zt c) (c_custom c) (sm_count s) (sm_zcount s)
+  else (sm_t s, mkH (if c_gauge c then HGauge else HUnknown) (c_schema c) (c_zt c) (c_custom c) (sm_count s) (sm_zcount s)
                     (sm_sum s) (c_ps c) (c_ns c) (sm_pb s) (sm_nb s)).
 Definition read_chunk (c : chunk) : list (Z * hist) := map (read_samp c) (c_samples c).
 
@@ -432,6 +434,43 @@ Definition append (k : kind) (c : chunk) (t : Z) (h : hist) : res (hist * outcom
           finish k c t h1 i
       end
   end.
+
+(* AppendHistogram / AppendFloatHistogram with appendOnly = true, as used when a chunk is
+   re-encoded (populateWithDelChunkSeriesIterator.populateCurrForSingleChunk, i.e. compaction of
+   chunks that are open or cut by the block range): None = an error is returned *)
+Definition append_ao (k : kind) (c : chunk) (t : Z) (h : hist) : res (option chunk) :=
+  match c_samples c with
+  | [] => r <- append k c t h ;; (match snd r with Same c' | NewChunk c' | Recoded c' => Ok (Some c') end)
+  | _ =>
+    if negb (is_gauge_hint h) then
+      r <- appendable k c h ;;
+      match r with
+      | None => Ok None      (* "histogram counter reset" / "histogram schema change" *)
+      | Some i =>
+          if nonempty (pF i) || nonempty (nF i) then
+            (* the backward step runs first and may fail on its own; then "layout change" *)
+            Ok None
+          else
+            r2 <- append k c t h ;;
+            (match snd r2 with Same c' => Ok (Some c') | _ => Ok None end)
+      end
+    else
+      r <- appendable_gauge c h ;;
+      match r with
+      | None => Ok None      (* "gauge histogram schema change" *)
+      | Some (i, _, _) =>
+          if nonempty (pB i) || nonempty (nB i) || nonempty (pF i) || nonempty (nF i) then Ok None
+          else r2 <- append k c t h ;;
+               (match snd r2 with Same c' => Ok (Some c') | _ => Ok None end)
+      end
+  end.
+
+(* re-encode one chunk: every sample the iterator yields is appended, append-only, to a fresh
+   chunk; None = the re-encoding fails with an error *)
+Definition reencode (k : kind) (c : chunk) : res (option chunk) :=
+  fold_left (fun acc th => a <- acc ;;
+                           match a with None => Ok None | Some c' => append_ao k c' (fst th) (snd th) end)
+            (read_chunk c) (Ok (Some (empty_chunk false))).
 
 (* ---------- a series: completed chunks + the open chunk, driven with arbitrary cuts ---------- *)
 Record op := mkOp { o_cut : bool; o_t : Z; o_h : hist }.
